@@ -78,6 +78,8 @@ CHECKS = {
         "subs": [
             {"name": "decode", "test": "TestDecode", "quick": 20000, "thorough": 300000, "shards": 16},
             {"name": "malformed", "test": "TestMalformed", "quick": 20000, "thorough": 300000, "shards": 16},
+            {"name": "malformed10", "test": "TestMalformed10", "quick": 5000, "thorough": 100000, "shards": 16},
+            {"name": "sizes", "test": "TestSizes", "quick": None, "thorough": None, "shards": 4, "enum": True},
             {"name": "driver", "test": "TestDriver", "quick": 600, "thorough": 6000, "shards": 16},
             {"name": "fuzz11", "test": "FuzzRecord11", "fuzz": True, "fuzztime": "150s", "thorough_only": True},
         ],
